@@ -3,7 +3,6 @@ package main
 import (
 	"go/token"
 	"go/types"
-	"sort"
 	"strings"
 
 	"golang.org/x/tools/go/ssa"
@@ -71,72 +70,232 @@ func callsAfter(fn *ssa.Function, from ssa.Instruction, name string) []*ssa.Call
 	return out
 }
 
-func ruleHeapNotify(c *Ctx, r *R) {
-	meths := c.methodsOf("internal/heap", "Heap")
-	var names []string
-	for n := range meths {
-		names = append(names, n)
-	}
-	sort.Strings(names)
-	for _, n := range names {
-		fn := meths[n]
-		k := 0
-		instrs(fn, func(b *ssa.BasicBlock, i int, in ssa.Instruction) {
-			st, ok := in.(*ssa.Store)
-			if !ok {
-				return
-			}
-			var idxPath string
-			if idx, ok := isHeapElemStore(st); ok {
-				if isZeroValue(st.Val) {
-					return
+// ---- deep placement / follow-up view (robust to helper extraction) ----------------------------------------------------------
+
+type heapPlace struct {
+	d    deepInstr
+	idx  string // canonical index expression in the root function's terms
+	root bool   // index 0
+	last bool   // the freshly appended slot
+}
+
+type heapFollow struct {
+	d    deepInstr
+	name string
+	idx  string
+}
+
+// inFrames: d was reached through a call of one of the named heap methods
+func throughAny(d deepInstr, names ...string) bool {
+	for _, cc := range d.calls {
+		if cal := staticCallee(&cc.Call); cal != nil {
+			for _, n := range names {
+				if cal.Name() == n {
+					return true
 				}
-				idxPath = path(idx)
-			} else if _, f, ok := storedField(st.Addr); ok && f == "a" {
-				call, isCall := st.Val.(*ssa.Call)
+			}
+		}
+	}
+	return false
+}
+
+// heapDeep collects, for a root function, every placement of an element into the heap's backing slice and every call of the
+// notify / sift helpers, each with its index written over the root function's values.
+func heapDeep(fn *ssa.Function, prune func(*ssa.Function) bool) (places []heapPlace, follows []heapFollow) {
+	recv := "?"
+	for _, d := range deepInstrsPruned(fn, 4, prune) {
+		env := provEnv{chain: d.calls}
+		switch x := d.in.(type) {
+		case *ssa.Store:
+			if idx, ok := isHeapElemStore(x); ok {
+				if isZeroValue(x.Val) {
+					continue
+				}
+				e := symOf(idx, env)
+				places = append(places, heapPlace{d: d, idx: e.String(), root: e.isConst(0)})
+			} else if fa, ok := x.Addr.(*ssa.FieldAddr); ok && fieldName(fa.X.Type(), fa.Field) == "a" && isNamedType(fa.X.Type(), "internal/heap", "Heap") {
+				call, isCall := x.Val.(*ssa.Call)
 				if !isCall {
-					return
+					continue
 				}
 				if bi, ok := call.Call.Value.(*ssa.Builtin); !ok || bi.Name() != "append" {
-					return
+					continue
 				}
-				idxPath = "(len(h.a)-1)"
-			} else {
-				return
+				recv = valueProv(fa.X, env).String()
+				places = append(places, heapPlace{d: d, idx: "(len(" + recv + ".a)-1:int)", last: true})
 			}
-			k++
-			key := "heap.Heap." + n + "|store#" + itoa(k) + "@" + idxPath
-			found := false
-			extra := ""
-			for _, call := range callsAfter(fn, st, "notifyIndexChanged") {
-				ap := path(call.Call.Args[1])
-				if ap == idxPath || strings.Trim(ap, "()") == strings.Trim(idxPath, "()") {
-					found = true
-					// the notification may be conditional only on the slot still existing: X < len(h.a) / len(h.a) > X
-					for _, g := range guardsOf(call.Block()) {
-						if g.blk.Dominates(st.Block()) && g.blk != st.Block() {
-							continue // a guard the store is under as well
-						}
-						cf, ok := g.asCmp()
-						if !ok {
-							extra = "an unrecognised condition"
-							continue
-						}
-						xs, ys := unparen(path(cf.x)), unparen(path(cf.y))
-						idx := unparen(idxPath)
-						okG := (xs == "len(h.a)" && ys == idx && cf.op == token.GTR) || (xs == idx && ys == "len(h.a)" && cf.op == token.LSS)
-						if !okG {
-							extra = xs + " " + cf.op.String() + " " + ys
-						}
-					}
+		case *ssa.Call:
+			cal := staticCallee(&x.Call)
+			if cal == nil || len(x.Call.Args) < 2 {
+				continue
+			}
+			switch cal.Name() {
+			case "notifyIndexChanged", "percolateUp", "percolateDown":
+				follows = append(follows, heapFollow{d: d, name: cal.Name(), idx: symOf(x.Call.Args[1], env).String()})
+			}
+		}
+	}
+	return
+}
+
+// deepBefore: does a take effect before b can (a's instruction precedes or reaches b's in the innermost frame they share)?
+func deepBefore(a, b deepInstr) bool {
+	k := 0
+	for k < len(a.calls) && k < len(b.calls) && a.calls[k] == b.calls[k] {
+		k++
+	}
+	var ia, ib ssa.Instruction = a.in, b.in
+	if k < len(a.calls) {
+		ia = a.calls[k]
+	}
+	if k < len(b.calls) {
+		ib = b.calls[k]
+	}
+	if ia == ib {
+		return false
+	}
+	if ia.Block() == ib.Block() {
+		return idxIn(ia) < idxIn(ib)
+	}
+	return reaches(ia.Block(), ib.Block())
+}
+
+// extraConditions: the branch facts under which follow-up f runs but placement p does not (in the frames below their common
+// one, and in the common frame the guards of f that do not also guard p), rendered over the root function's values.
+func extraConditions(p heapPlace, f heapFollow) []string {
+	var out []string
+	k := 0
+	for k < len(p.d.calls) && k < len(f.d.calls) && p.d.calls[k] == f.d.calls[k] {
+		k++
+	}
+	var ip ssa.Instruction = p.d.in
+	if k < len(p.d.calls) {
+		ip = p.d.calls[k]
+	}
+	frames := []ssa.Instruction{}
+	for i := k; i < len(f.d.calls); i++ {
+		frames = append(frames, f.d.calls[i])
+	}
+	frames = append(frames, f.d.in)
+	for fi, in := range frames {
+		chain := f.d.calls[:k+fi]
+		for _, g := range guardsOf(in.Block()) {
+			if fi == 0 && g.blk != nil && g.blk != ip.Block() && g.blk.Dominates(ip.Block()) {
+				// also a guard of the placement - unless the placement sits on the other edge
+				if edgeDominatesBlock(g, ip.Block()) {
+					continue
 				}
 			}
-			if found && extra != "" {
-				r.violated(key, st.Pos(), "the notification for index "+idxPath+" is skipped under "+extra+", which is stronger than 'the slot still exists' (len(h.a) > "+idxPath+"): when exactly one element remains it has moved to index "+idxPath+" but the key map keeps its old index")
-				return
+			cf, ok := g.asCmp()
+			if !ok {
+				out = append(out, "an unrecognised condition")
+				continue
 			}
-			r.ok(found, key, st.Pos(), "an element was placed at index "+idxPath+" but no notifyIndexChanged("+idxPath+") follows: PriorityQueue's key→index map goes stale for that key")
-		})
+			env := provEnv{chain: chain}
+			out = append(out, symOf(cf.x, env).String()+" "+cf.op.String()+" "+symOf(cf.y, env).String())
+		}
+	}
+	return out
+}
+
+// edgeDominatesBlock: the edge of g's block on which g holds dominates b.
+func edgeDominatesBlock(g guard, b *ssa.BasicBlock) bool {
+	if g.blk == nil || len(g.blk.Succs) != 2 {
+		return false
+	}
+	idx := 1
+	if g.val {
+		idx = 0
+	}
+	return edgeDominates(g.blk, idx, b)
+}
+
+func heapRoots(c *Ctx) []*ssa.Function {
+	var out []*ssa.Function
+	for _, fn := range c.funcsOfPkg("internal/heap") {
+		if fn.Parent() == nil && fn.Blocks != nil && token.IsExported(fn.Name()) {
+			out = append(out, fn)
+		}
+	}
+	return out
+}
+
+// notifyUnsatisfied: the placements of fn's (pruned) deep view that are not followed by a matching notification.
+func notifyUnsatisfied(fn *ssa.Function, prune func(*ssa.Function) bool) (all []heapPlace, bad map[int]string) {
+	places, follows := heapDeep(fn, prune)
+	bad = map[int]string{}
+	for pi, p := range places {
+		found := false
+		extra := ""
+		for _, f := range follows {
+			if f.name != "notifyIndexChanged" || f.idx != p.idx || !deepBefore(p.d, f.d) {
+				continue
+			}
+			found = true
+			// the notification may be conditional only on the slot still existing: idx < len(h.a)
+			for _, cond := range extraConditions(p, f) {
+				parts := strings.SplitN(cond, " ", 3)
+				okG := false
+				if len(parts) == 3 {
+					x, op, y := unparen(parts[0]), parts[1], unparen(parts[2])
+					isLen := func(s string) bool { return strings.HasPrefix(s, "len(") && strings.HasSuffix(s, ".a)") }
+					okG = (isLen(x) && y == unparen(p.idx) && op == ">") || (x == unparen(p.idx) && isLen(y) && op == "<")
+				}
+				if !okG {
+					extra = cond
+				}
+			}
+		}
+		if found && extra != "" {
+			bad[pi] = "the notification for index " + p.idx + " is skipped under " + extra + ", which is stronger than 'the slot still exists' (len(h.a) > " + p.idx + "): when exactly one element remains it has moved to index " + p.idx + " but the key map keeps its old index"
+		} else if !found {
+			bad[pi] = "an element was placed at index " + p.idx + " but no notifyIndexChanged(" + p.idx + ") follows: PriorityQueue's key→index map goes stale for that key"
+		}
+	}
+	return places, bad
+}
+
+func ruleHeapNotify(c *Ctx, r *R) {
+	// units that pair every placement with its notification on their own (swap; the sifts built on it) are analysed once and
+	// not re-entered from their callers; a helper that places without notifying is seen through its callers' deep views.
+	fns := []*ssa.Function{}
+	for _, fn := range c.funcsOfPkg("internal/heap") {
+		if fn.Parent() == nil && fn.Blocks != nil {
+			fns = append(fns, fn)
+		}
+	}
+	self := map[*ssa.Function]bool{}
+	for round := 0; round < 4; round++ {
+		for _, fn := range fns {
+			if self[fn] {
+				continue
+			}
+			places, bad := notifyUnsatisfied(fn, func(f *ssa.Function) bool { return self[f] })
+			if len(places) > 0 && len(bad) == 0 {
+				self[fn] = true
+			}
+		}
+	}
+	for _, fn := range fns {
+		sites := callSitesOf(c, fn)
+		isRoot := token.IsExported(fn.Name()) || len(sites) == 0
+		places, bad := notifyUnsatisfied(fn, func(f *ssa.Function) bool { return self[f] })
+		n := fn.Name()
+		seen := map[string]int{}
+		for pi, p := range places {
+			seen[p.idx]++
+			key := "heap.Heap." + n + "|placed@" + p.idx + "#" + itoa(seen[p.idx])
+			why, isBad := bad[pi]
+			if !isBad {
+				r.discharged(key, posOf(p.d.in), "placement followed by notifyIndexChanged("+p.idx+")")
+				continue
+			}
+			if !isRoot {
+				// a helper that leaves the notification to its callers: decided in each caller's deep view
+				continue
+			}
+			r.violated(key, posOf(p.d.in), why)
+		}
 	}
 	// New: every initial index is notified after heapify
 	nw := c.fn("internal/heap.New")
@@ -174,54 +333,33 @@ func ruleHeapRestore(c *Ctx, r *R) {
 			r.undecided("heap.Heap."+n+"|missing", token.NoPos, "anchor not found")
 			continue
 		}
+		places, follows := heapDeep(fn, nil)
 		k := 0
-		instrs(fn, func(b *ssa.BasicBlock, i int, in ssa.Instruction) {
-			st, ok := in.(*ssa.Store)
-			if !ok {
-				return
-			}
-			var idxPath string
-			root, last := false, false
-			if idx, ok := isHeapElemStore(st); ok {
-				if isZeroValue(st.Val) {
-					return
-				}
-				idxPath = path(idx)
-				root = isConstInt(idx, 0)
-			} else if _, f, ok := storedField(st.Addr); ok && f == "a" {
-				call, isCall := st.Val.(*ssa.Call)
-				if !isCall {
-					return
-				}
-				if bi, ok := call.Call.Value.(*ssa.Builtin); !ok || bi.Name() != "append" {
-					return
-				}
-				idxPath = "(len(h.a)-1)"
-				last = true
-			} else {
-				return
+		for _, p := range places {
+			if throughAny(p.d, "percolateUp", "percolateDown") {
+				continue // the sift's own swaps
 			}
 			k++
 			has := func(name string) bool {
-				for _, call := range callsAfter(fn, st, name) {
-					if strings.Trim(path(call.Call.Args[1]), "()") == strings.Trim(idxPath, "()") {
+				for _, f := range follows {
+					if f.name == name && f.idx == p.idx && deepBefore(p.d, f.d) && !throughAny(f.d, "percolateUp", "percolateDown") {
 						return true
 					}
 				}
 				return false
 			}
-			key := "heap.Heap." + n + "|placed@" + idxPath + "#" + itoa(k)
-			up := root || has("percolateUp")
-			down := last || has("percolateDown")
+			key := "heap.Heap." + n + "|placed@" + p.idx + "#" + itoa(k)
+			up := p.root || has("percolateUp")
+			down := p.last || has("percolateDown")
 			why := ""
 			if !up {
-				why = "no percolateUp(" + idxPath + ") follows: the element placed there can be smaller than its parent (it may come from a different subtree), leaving a non-minimal element above it"
+				why = "no percolateUp(" + p.idx + ") follows: the element placed there can be smaller than its parent (it may come from a different subtree), leaving a non-minimal element above it"
 			}
 			if !down {
-				why += " no percolateDown(" + idxPath + ") follows: the element can be larger than its children"
+				why += " no percolateDown(" + p.idx + ") follows: the element can be larger than its children"
 			}
-			r.ok(up && down, key, st.Pos(), why)
-		})
+			r.ok(up && down, key, posOf(p.d.in), why)
+		}
 	}
 	// New heapifies: percolateDown(i) for i = len/2-1 .. 0
 	nw := c.fn("internal/heap.New")
@@ -452,7 +590,7 @@ func rulePQMap(c *Ctx, r *R) {
 			ex, isEx := idx.(*ssa.Extract)
 			fromMap := false
 			if isEx {
-				if lk, ok := ex.Tuple.(*ssa.Lookup); ok && strings.HasSuffix(path(lk.X), ".m") && lk.Index == ssa.Value(fn.Params[1]) {
+				if lk, ok := ex.Tuple.(*ssa.Lookup); ok && isPQKeyMap(lk.X) && lk.Index == ssa.Value(fn.Params[1]) {
 					fromMap = true
 				}
 			}
@@ -511,7 +649,7 @@ func rulePQMap(c *Ctx, r *R) {
 		}
 		reads := false
 		instrs(fn, func(b *ssa.BasicBlock, i int, in ssa.Instruction) {
-			if lk, ok := in.(*ssa.Lookup); ok && strings.HasSuffix(path(lk.X), ".m") && lk.Index == ssa.Value(fn.Params[1]) && lk.CommaOk {
+			if lk, ok := in.(*ssa.Lookup); ok && isPQKeyMap(lk.X) && lk.Index == ssa.Value(fn.Params[1]) && lk.CommaOk {
 				reads = true
 			}
 		})
@@ -533,36 +671,74 @@ func rulePQMap(c *Ctx, r *R) {
 		})
 		r.ok(good, "xheap.PriorityQueue.Priority|item-under-ok", fn.Pos(), "Priority must read the item at the recorded index only when the key is present")
 	}
-	// who may write m
-	allowed := map[string]bool{"container/xheap.NewPriorityQueue": true, "container/xheap.NewPriorityQueue$2": true, "container/xheap.PriorityQueue.Pop": true, "container/xheap.PriorityQueue.Remove": true}
+	// who may write the key→index map: the indexChanged callback handed to heap.New (a closure or a method value) and the
+	// constructor's own de-duplication; deletes only in Pop and Remove
+	var cb *ssa.Function
+	if ctor := c.fn("container/xheap.NewPriorityQueue"); ctor != nil {
+		instrs(ctor, func(b *ssa.BasicBlock, i int, in ssa.Instruction) {
+			call, ok := in.(*ssa.Call)
+			if !ok {
+				return
+			}
+			cal := staticCallee(&call.Call)
+			if cal == nil || cal.Name() != "New" || len(call.Call.Args) < 2 {
+				return
+			}
+			for _, a := range call.Call.Args {
+				if sig, ok := a.Type().Underlying().(*types.Signature); ok && sig.Params().Len() == 2 && sig.Results().Len() == 0 {
+					if f, _ := funcAndReceiver(a); f != nil {
+						cb = f
+					}
+				}
+			}
+		})
+	}
 	for _, fn := range c.funcsOfPkg("container/xheap") {
 		name := c.nameOf(fn)
 		k := 0
+		isCtor := rootFn(fn).Name() == "NewPriorityQueue"
 		instrs(fn, func(b *ssa.BasicBlock, i int, in ssa.Instruction) {
 			switch x := in.(type) {
 			case *ssa.MapUpdate:
-				if strings.HasSuffix(path(x.Map), ".m") || strings.HasSuffix(path(x.Map), "m") {
+				if isPQKeyMap(x.Map) {
 					k++
-					r.ok(allowed[name], name+"|writes-m#"+itoa(k), x.Pos(), "the key→index map may be written only by the indexChanged callback and the constructor's de-duplication")
+					r.ok(isCtor || (cb != nil && origin(fn) == origin(cb)), name+"|writes-m#"+itoa(k), x.Pos(), "the key→index map may be written only by the indexChanged callback and the constructor's de-duplication")
 				}
 			case *ssa.Call:
-				if bi, ok := x.Call.Value.(*ssa.Builtin); ok && bi.Name() == "delete" {
+				if bi, ok := x.Call.Value.(*ssa.Builtin); ok && bi.Name() == "delete" && len(x.Call.Args) == 2 && isPQKeyMap(x.Call.Args[0]) {
 					k++
-					r.ok(allowed[name], name+"|deletes-from-m#"+itoa(k), x.Pos(), "keys may be deleted from the map only by Pop and Remove")
+					okD := isCtor || strings.HasSuffix(name, "PriorityQueue.Pop") || strings.HasSuffix(name, "PriorityQueue.Remove")
+					r.ok(okD, name+"|deletes-from-m#"+itoa(k), x.Pos(), "keys may be deleted from the map only by Pop and Remove")
 				}
 			}
 		})
 	}
 	// the indexChanged callback records exactly (x.K → i)
-	if cb := c.fn("container/xheap.NewPriorityQueue$2"); cb != nil {
+	if cb != nil {
 		good := false
+		np := len(cb.Params)
 		instrs(cb, func(b *ssa.BasicBlock, i int, in ssa.Instruction) {
-			if mu, ok := in.(*ssa.MapUpdate); ok && path(mu.Key) == cb.Params[0].Name()+".K" && mu.Value == ssa.Value(cb.Params[1]) {
-				good = true
+			if mu, ok := in.(*ssa.MapUpdate); ok && np >= 2 && isPQKeyMap(mu.Map) {
+				kp := valueProv(mu.Key, provEnv{})
+				if kp.root == ssa.Value(cb.Params[np-2]) && len(kp.fields) == 1 && kp.fields[0] == "K" && mu.Value == ssa.Value(cb.Params[np-1]) {
+					good = true
+				}
 			}
 		})
 		r.ok(good, "xheap.NewPriorityQueue|callback-records-index", cb.Pos(), "the indexChanged callback must record m[x.K] = i")
+	} else {
+		r.undecided("xheap.NewPriorityQueue|callback", token.NoPos, "cannot find the index callback handed to heap.New")
 	}
+}
+
+// isPQKeyMap: v is the PriorityQueue's key→index map (by type: a map whose element type is int, in package xheap).
+func isPQKeyMap(v ssa.Value) bool {
+	m, ok := v.Type().Underlying().(*types.Map)
+	if !ok {
+		return false
+	}
+	b, ok := m.Elem().Underlying().(*types.Basic)
+	return ok && b.Kind() == types.Int
 }
 
 func rulePQInitial(c *Ctx, r *R) {
